@@ -6,7 +6,9 @@ import ast
 import copy
 
 from ..const import UNKNOWN, Folder
-from ..flow import Slicer, flat_guards, parent_map
+from ..alpha import Loc, amatch
+from ..flow import flat_guards, parent_map
+from ..labels import LabelFlow
 from ..model import FuncInfo, Model, dotted, norm, walk_no_nested
 from ..report import Run
 from .common import CallGraph, short
@@ -88,62 +90,78 @@ def check(model: Model, run: Run) -> None:
         'only filter on the way is `is not NLRI.INVALID`; JSON/text renderers and the Adj-RIB-In handler read the matching list',
         floor=8,
     )
-    # split() order
+    # split() order: three slices of the payload, the first right after the 2-byte withdrawn length, the last open
+    # ended and starting where the second stops
     split = model.func(UC + '.split')
+    sloc = Loc(model, split)
     rets = [r for r in walk_no_nested(split.node) if isinstance(r, ast.Return) and isinstance(r.value, ast.Tuple)]
-    order = [dotted(e) for e in rets[-1].value.elts] if rets else []
-    run.check(order == ['withdrawn', 'attributes', 'announced'], split.qualname, 'split returns %s' % order, split.loc(), 'RFC 4271 4.3: withdrawn routes, path attributes, NLRI - in this order')
-    # what split() cuts
-    stxt = norm(split.node)
-    # tuple unpacking in _parse_payload
-    sect: dict[str, str] = {}
-    for n in walk_no_nested(pp.node):
-        if isinstance(n, ast.Assign) and isinstance(n.targets[0], ast.Tuple) and isinstance(n.value, ast.Call) and model.call_matches(mod, n.value, 'UpdateCollection.split'):
-            names = [dotted(e) for e in n.targets[0].elts]
-            if len(names) == 3:
-                sect[names[0]] = 'W'
-                sect[names[2]] = 'A'
-                sect[names[1]] = 'attr'
-    if not sect:
+    elts = [sloc.resolve(e) for e in rets[-1].value.elts] if rets else []
+    buf = split.node.args.args[0].arg if split.node.args.args else '?'
+    shape = len(elts) == 3 and all(isinstance(e, ast.Subscript) and isinstance(e.slice, ast.Slice) and dotted(e.value) == buf for e in elts)
+    order_ok = False
+    if shape:
+        e0, e1, e2 = (e.slice for e in elts)  # type: ignore[union-attr]
+        order_ok = (
+            e0.lower is not None
+            and folder.fold(e0.lower, split.module) == 2
+            and e2.upper is None
+            and e1.upper is not None
+            and e2.lower is not None
+            and sloc.expand(e1.upper) == sloc.expand(e2.lower)
+            and e1.lower is not None
+            and e0.upper is not None
+            and sloc.expand(e0.upper) != sloc.expand(e1.upper)
+        )
+    if not shape:
+        run.cannot('split(): return of three slices of the payload not found (shape not understood)')
+    run.check(order_ok, split.qualname, 'split returns (payload[2:..], payload[a:b], payload[b:])', split.loc(), 'RFC 4271 4.3: withdrawn routes, path attributes, NLRI - in this order')
+    ploc = Loc(model, pp)
+    if len(ploc.unpacked_from_call('UpdateCollection.split')) != 3:
         run.cannot('split() unpacking not found in _parse_payload')
         return
-    sl = Slicer(model, pp)
+    taw_ifs = [n for n in walk_no_nested(pp.node) if isinstance(n, ast.If) and 'INTERNAL_TREAT_AS_WITHDRAW' in norm(n.test)]
+    taw_stmts = {id(x) for n in taw_ifs for b in n.body for x in ast.walk(b)}
 
-    def label_of(name: str, seen: set[str] | None = None) -> str | None:
-        seen = seen or set()
-        if name in sect:
-            return sect[name]
-        if name in seen:
-            return None
-        seen.add(name)
-        labs = set()
-        for v, _ in sl.defs.get(name, []):
-            # only the initial binding counts: a plain copy/conversion of a section (the rebinding to the rest
-            # returned by the decoder keeps the label)
-            if isinstance(v, ast.Call) and isinstance(v.func, ast.Name) and v.func.id in ('bytes', 'memoryview', 'bytearray') and len(v.args) == 1 and isinstance(v.args[0], ast.Name):
-                l = label_of(v.args[0].id, seen)
-                if l in ('W', 'A'):
-                    labs.add(l)
-        return labs.pop() if len(labs) == 1 else None
+    def seed(e: ast.AST) -> tuple[str, ...]:
+        if isinstance(e, ast.Call) and isinstance(e.func, ast.Attribute) and e.func.attr in ('pop', 'get') and e.args:
+            k = dotted(e.args[0]) or ''
+            if k.startswith('MPURNLRI'):
+                return ('W.mp',)
+            if k.startswith('MPRNLRI'):
+                return ('A.mp',)
+            if k.endswith('NEXT_HOP'):
+                return ('NH',)
+        return ()
 
-    # the constructor call
+    def seed_unpack(value: ast.AST, i: int) -> tuple[str, ...]:
+        if isinstance(value, ast.Call) and model.call_matches(mod, value, 'UpdateCollection.split'):
+            return (('W.sec',), ('attr',), ('A.sec',))[i] if i < 3 else ()
+        return ()
+
+    lf = LabelFlow(pp.node, seed, seed_unpack, ignore=lambda st: id(st) in taw_stmts)
+
+    def routes(labs: frozenset[str]) -> set[str]:
+        return {x for x in labs if x[0] in 'WA' and '.' in x}
+
+    # the constructor call: which parameter of __init__ ends in _announces / _withdraws
     ctor = [c for r in walk_no_nested(pp.node) if isinstance(r, ast.Return) and isinstance(r.value, ast.Call) and isinstance(r.value.func, ast.Name) and r.value.func.id == 'cls' for c in [r.value]]
     if len(ctor) != 1 or len(ctor[0].args) < 3:
         run.cannot('return cls(announces, withdraws, attributes) not found')
         return
     init = model.func(UC + '.__init__')
-    params = [a.arg for a in init.node.args.args][1:4]
-    args = [dotted(a) for a in ctor[0].args[:3]]
-    run.check(params == ['announces', 'withdraws', 'attributes'] and args == params, pp.qualname, 'cls(%s) matches parameters %s' % (', '.join(map(str, args)), params), pp.loc(ctor[0]), 'the announce and withdraw lists must not be swapped on the way into UpdateCollection')
-    list_of = {'A': args[0], 'W': args[1]}
-    # stores in __init__
-    stores = {}
+    iparams = [a.arg for a in init.node.args.args][1:]
+    pos: dict[str, int] = {}
     for n in walk_no_nested(init.node):
         if isinstance(n, (ast.Assign, ast.AnnAssign)):
             tg = n.targets[0] if isinstance(n, ast.Assign) else n.target
-            if n.value is not None:
-                stores[dotted(tg)] = dotted(n.value)
-    run.check(stores.get('self._announces') == 'announces' and stores.get('self._withdraws') == 'withdraws', init.qualname, 'stores each list under its own name', init.loc(), '__init__ must keep announces and withdraws apart')
+            if n.value is not None and isinstance(n.value, ast.Name) and n.value.id in iparams and dotted(tg) in ('self._announces', 'self._withdraws'):
+                pos[(dotted(tg) or '')[6:]] = iparams.index(n.value.id)
+    run.check(set(pos) == {'announces', 'withdraws'} and pos['announces'] != pos['withdraws'], init.qualname, 'stores each list under its own attribute (parameter positions %s)' % pos, init.loc(), '__init__ must keep announces and withdraws apart')
+    if set(pos) != {'announces', 'withdraws'}:
+        return
+    la = routes(lf.of(ctor[0].args[pos['announces']]))
+    lw = routes(lf.of(ctor[0].args[pos['withdraws']]))
+    run.check(la == {'A.sec', 'A.mp'} and lw == {'W.sec', 'W.mp'}, pp.qualname, 'UpdateCollection(announces <- %s, withdraws <- %s)' % (sorted(la), sorted(lw)), pp.loc(ctor[0]), 'routes of the NLRI section and of MP_REACH must reach the announces, routes of the withdrawn section and of MP_UNREACH the withdraws, and nothing else (the treat-as-withdraw move aside)')
     # decoder calls
     calls = model.calls_to(mod, pp.node, 'NLRI.unpack_nlri')
     if len(calls) != 2:
@@ -152,53 +170,39 @@ def check(model: Model, run: Run) -> None:
     for c in calls:
         if len(c.args) < 4:
             continue
-        buf = dotted(c.args[2]) or ''
-        lab = label_of(buf)
+        labs = routes(lf.of(c.args[2]))
+        lab = {'W.sec': 'W', 'A.sec': 'A'}.get(next(iter(labs)), None) if len(labs) == 1 else None
         act = (dotted(c.args[3]) or '').rsplit('.', 1)[-1]
         want_act = {'W': 'WITHDRAW', 'A': 'ANNOUNCE'}.get(lab or '', '?')
         afi_ok = norm(c.args[0]) == 'AFI.ipv4' and norm(c.args[1]) == 'SAFI.unicast'
-        run.check(lab in ('W', 'A') and act == want_act and afi_ok, pp.qualname, 'decoder of the %s section gets Action.%s, ipv4 unicast' % ({'W': 'withdrawn', 'A': 'NLRI'}.get(lab or '', '?'), act), pp.loc(c), 'the %s section holds %s routes of ipv4 unicast' % (buf, want_act.lower()))
-        # where does the decoded nlri go?
-        loop = pm.get(id(c))
+        run.check(lab in ('W', 'A') and act == want_act and afi_ok, pp.qualname, 'decoder of the %s section gets Action.%s, ipv4 unicast' % ({'W': 'withdrawn', 'A': 'NLRI'}.get(lab or '', '?'), act), pp.loc(c), 'the %s section holds %s routes of ipv4 unicast' % ({'W': 'withdrawn', 'A': 'NLRI'}.get(lab or '', '?'), want_act.lower()))
+        # what may stand between the decoder and the list: only the INVALID test on the decoded route
+        st = pm.get(id(c))
+        decoded = None
+        if isinstance(st, ast.Assign) and isinstance(st.targets[0], ast.Tuple) and st.targets[0].elts and isinstance(st.targets[0].elts[0], ast.Name):
+            decoded = st.targets[0].elts[0].id
+        loop = st
         while loop is not None and not isinstance(loop, ast.While):
             loop = pm.get(id(loop))
-        sinks = []
-        filters = []
-        if loop is not None:
+        bad = []
+        nsinks = 0
+        if loop is not None and decoded is not None:
             for x in walk_no_nested(loop):
                 if isinstance(x, ast.Call) and isinstance(x.func, ast.Attribute) and x.func.attr in ('append', 'extend') and isinstance(x.func.value, ast.Name):
-                    sinks.append((x.func.value.id, x))
+                    nsinks += 1
                     for t, pol in flat_guards(pp.node, x):
-                        if not (loop.lineno <= t.lineno <= (loop.end_lineno or 0)):
+                        if t is loop.test or not (loop.lineno <= t.lineno <= (loop.end_lineno or 0)):
                             continue
-                        if t is loop.test:
+                        if amatch('V_n is not NLRI.INVALID', t, {'V_n': decoded}) is not None and pol:
                             continue
-                        filters.append((norm(t), pol))
-        names = {s for s, _ in sinks}
-        run.check(names == {list_of.get(lab or '', '?')}, pp.qualname, '%s-section NLRIs are appended to %s' % (lab, sorted(names)), pp.loc(c), 'routes of the %s section must end in `%s`' % ({'W': 'withdrawn', 'A': 'NLRI'}.get(lab or '', '?'), list_of.get(lab or '', '?')))
-        allowed = lambda t, pol: (t == 'nlri is not NLRI.INVALID' and pol) or t.startswith('isinstance(nexthop') or t.startswith('len(packed) ==')  # noqa: E731
-        bad = [(t, pol) for t, pol in filters if not allowed(t, pol)]
-        run.check(not bad, pp.qualname, 'only the INVALID filter stands between the %s decoder and its list' % lab, pp.loc(c), 'a decoded route is dropped under %s' % bad)
-    # MP attributes
-    mp = {}
-    for n in walk_no_nested(pp.node):
-        if isinstance(n, ast.Assign) and isinstance(n.targets[0], ast.Name) and isinstance(n.value, ast.Call) and isinstance(n.value.func, ast.Attribute) and n.value.func.attr in ('pop', 'get') and n.value.args:
-            k = dotted(n.value.args[0]) or ''
-            if k.startswith('MPURNLRI'):
-                mp[n.targets[0].id] = 'W'
-            elif k.startswith('MPRNLRI'):
-                mp[n.targets[0].id] = 'A'
+                        if decoded not in {n.id for n in ast.walk(t) if isinstance(n, ast.Name)}:
+                            continue  # a choice that does not look at the route (how the next hop is represented)
+                        bad.append((norm(t), pol))
+        run.check(decoded is not None and nsinks >= 1 and not bad, pp.qualname, 'only the INVALID filter stands between the %s decoder and its list' % lab, pp.loc(c), 'a decoded route is dropped under %s' % bad)
+    # MP_REACH routes carry the next hop of that attribute
     for x in walk_no_nested(pp.node):
-        if isinstance(x, ast.Call) and isinstance(x.func, ast.Attribute) and x.func.attr == 'extend' and isinstance(x.func.value, ast.Name) and x.args:
-            srcs = {n.id for n in ast.walk(x.args[0]) if isinstance(n, ast.Name)} & set(mp)
-            if not srcs:
-                continue
-            lab = mp[srcs.pop()]
-            run.check(x.func.value.id == list_of[lab], pp.qualname, 'MP_%s routes extend %s' % ('UNREACH' if lab == 'W' else 'REACH', x.func.value.id), pp.loc(x), 'MP_REACH routes are announcements, MP_UNREACH routes are withdrawals')
-            if lab == 'A':
-                run.check(isinstance(x.args[0], ast.Call) and model.call_matches(mod, x.args[0], 'MPRNLRI.iter_routed'), pp.qualname, 'MP_REACH routes carry their own next hop (iter_routed)', pp.loc(x), 'MP_REACH routes must come with the next hop of that attribute')
-    if set(mp.values()) != {'W', 'A'}:
-        run.cannot('MP_REACH / MP_UNREACH extraction not found in _parse_payload')
+        if isinstance(x, ast.Call) and isinstance(x.func, ast.Attribute) and x.func.attr == 'extend' and x.args and id(x) not in taw_stmts and 'A.mp' in lf.of(x.args[0]):
+            run.check(isinstance(x.args[0], ast.Call) and model.call_matches(mod, x.args[0], 'MPRNLRI.iter_routed'), pp.qualname, 'MP_REACH routes carry their own next hop (iter_routed)', pp.loc(x), 'MP_REACH routes must come with the next hop of that attribute')
     # MP decoders use the right Action
     gen = model.funcs.get(MPR + '._parse_nexthop_and_nlris.nlri_generator')
     if gen is not None:
@@ -210,28 +214,28 @@ def check(model: Model, run: Run) -> None:
     # renderers / handler
     ju = model.func('exabgp.reactor.api.response.json.JSON._update')
     run.analysed(ju)
-    jt = norm(ju.node)
-    ok = 'for routed in update_msg.announces' in jt and 'for nlri in update_msg.withdraws' in jt
-    fa = [n for n in walk_no_nested(ju.node) if isinstance(n, ast.For)]
-    feed = {}
-    for f in fa:
-        src = dotted(f.iter) or ''
-        for x in walk_no_nested(f):
-            if isinstance(x, ast.Call) and isinstance(x.func, ast.Attribute) and x.func.attr in ('setdefault',) and isinstance(x.func.value, ast.Name):
-                feed.setdefault(src, set()).add(x.func.value.id)
-    ok = ok and feed.get('update_msg.announces') == {'plus'} and feed.get('update_msg.withdraws') == {'minus'}
-    run.check(ok, ju.qualname, 'announces feed `plus`, withdraws feed `minus`', ju.loc(), 'JSON must report announces as announce and withdraws as withdraw')
-    keys_ok = False
+
+    def jseed(e: ast.AST) -> tuple[str, ...]:
+        if isinstance(e, ast.Attribute) and e.attr in ('announces', 'withdraws'):
+            return ('A',) if e.attr == 'announces' else ('W',)
+        return ()
+
+    jf = LabelFlow(ju.node, jseed)
+    found = {}
     for n in walk_no_nested(ju.node):
-        if isinstance(n, ast.If) and dotted(n.test) == 'add':
-            keys_ok = any('"announce"' in norm(s) for s in n.body)
-    keys_ok2 = False
-    for n in walk_no_nested(ju.node):
-        if isinstance(n, ast.If) and dotted(n.test) == 'remove':
-            keys_ok2 = any('"withdraw"' in norm(s) for s in n.body)
-    add_from_plus = any(isinstance(n, ast.For) and dotted(n.iter) == 'plus' and any('add.append' in norm(s) for s in n.body) for n in walk_no_nested(ju.node))
-    rem_from_minus = any(isinstance(n, ast.For) and dotted(n.iter) == 'minus' and any('remove.append' in norm(s) for s in n.body) for n in walk_no_nested(ju.node))
-    run.check(keys_ok and keys_ok2 and add_from_plus and rem_from_minus, ju.qualname, '"announce" is built from plus, "withdraw" from minus', ju.loc(), 'the JSON keys must match the lists they render')
+        if isinstance(n, ast.JoinedStr):
+            text = ''.join(v.value for v in n.values if isinstance(v, ast.Constant) and isinstance(v.value, str))
+            for key, want, other in (('"announce"', 'A', 'W'), ('"withdraw"', 'W', 'A')):
+                if key in text:
+                    labs = set()
+                    for v in n.values:
+                        if isinstance(v, ast.FormattedValue):
+                            labs |= jf.of(v.value)
+                    found[key] = (want in labs and other not in labs, sorted(labs), n)
+    if set(found) != {'"announce"', '"withdraw"'}:
+        run.cannot('JSON._update: the f-strings building "announce" / "withdraw" were not found (shape not understood)')
+    for key, (ok, labs, n) in sorted(found.items()):
+        run.check(ok, ju.qualname, '%s is rendered from %s' % (key, labs), ju.loc(n), 'JSON must report announces under "announce" and withdraws under "withdraw"')
     for name in ('handle', 'handle_async'):
         h = model.func(UH + '.' + name)
         run.analysed(h)
@@ -251,23 +255,41 @@ def check(model: Model, run: Run) -> None:
     d = first_difference(a, b)
     run.check(d is None, UH + '.handle/handle_async', 'identical in normal form (%d statements)' % len(a), model.func(UH + '.handle_async').loc(), 'the two handlers diverge at statement %s: sync `%s` / async `%s`' % ((d[0] + 1, d[1][:90], d[2][:90]) if d else ('', '', '')))
 
-    def offsets(fi: FuncInfo) -> list[str]:
-        out = []
-        for n in sorted((x for x in walk_no_nested(fi.node) if isinstance(x, (ast.Assign, ast.AugAssign))), key=lambda x: x.lineno):
-            tg = n.targets[0] if isinstance(n, ast.Assign) else n.target
-            if dotted(tg) == 'offset':
-                out.append(('=' if isinstance(n, ast.Assign) else '+=') + norm(n.value))
-        return out
+    def offsets(fi: FuncInfo) -> tuple[str | None, list[str]]:
+        """the cursor variable (first bound to a constant, then only advanced) and how it moves; names do not matter"""
+        loc = Loc(model, fi)
+        for nm, ds0 in loc.defs.items():
+            ds = sorted(ds0, key=lambda d: (d[2].lineno, d[2].col_offset))
+            hows = [h for _, h, _ in ds]
+            if len(ds) >= 3 and hows[0] == 'assign' and all(h == 'aug' for h in hows[1:]) and isinstance(ds[0][0], ast.Constant):
+                out = ['=%s' % ds[0][0].value]
+                for v, _, _ in sorted(ds[1:], key=lambda d: d[2].lineno):
+                    r = loc.resolve(v) if v is not None else v
+                    if isinstance(r, ast.Constant):
+                        out.append('+=%s' % r.value)
+                    elif isinstance(r, ast.Subscript) and isinstance(r.slice, ast.Name) and r.slice.id == nm:
+                        out.append('+=byte[cursor]')
+                    else:
+                        out.append('+=' + (loc.expand(v) if v is not None else '?'))
+                return nm, out
+        return None, []
 
     ua = model.func(MPR + '.unpack_attribute')
     pn = model.func(MPR + '._parse_nexthop_and_nlris')
     run.analysed(ua)
     run.analysed(pn)
-    oa, ob = offsets(ua), offsets(pn)
-    run.check(oa == ob == ['=3', '+=1', '+=len_nh', '+=1'], MPR, 'validator offsets %s / lazy parser offsets %s' % (oa, ob), pn.loc(), 'RFC 4760 3: AFI(2) SAFI(1) next-hop length(1) next hop reserved(1) NLRI; the lazy parser must skip what the validator checked')
-    nh = [n for n in walk_no_nested(pn.node) if isinstance(n, ast.Assign) and dotted(n.targets[0]) == 'nhs']
-    run.check(bool(nh) and norm(nh[0].value) == 'data[offset + rd:offset + rd + size]' and 'size = len_nh - rd' in norm(pn.node), pn.qualname, 'next hop = bytes after the RD-sized prefix', pn.loc(), 'the next hop of a VPN family follows an 8-byte zero RD')
-    run.check('Family.size[self.afi, self.safi]' in norm(pn.node).replace('(', '').replace(')', '') or 'Family.size[(self.afi, self.safi)]' in norm(pn.node), pn.qualname, 'RD size from Family.size of the attribute own family', pn.loc(), 'per-family RD size')
+    (ca, oa), (cb, ob) = offsets(ua), offsets(pn)
+    run.check(oa == ob == ['=3', '+=1', '+=byte[cursor]', '+=1'], MPR, 'validator offsets %s / lazy parser offsets %s' % (oa, ob), pn.loc(), 'RFC 4760 3: AFI(2) SAFI(1) next-hop length(1) next hop reserved(1) NLRI; the lazy parser must skip what the validator checked')
+    # next hop bytes = buffer[cursor + rd : cursor + rd + (nh length - rd)] with rd from Family.size of the own family
+    pl = Loc(model, pn)
+    rdv = [nm for nm, ds in pl.defs.items() if any(h == 'assign[1]' and isinstance(v, ast.Subscript) and (dotted(v.value) or '').endswith('Family.size') and norm(v.slice).replace('(', '').replace(')', '') == 'self.afi, self.safi' for v, h, _ in ds)]
+    ok_nh = False
+    if cb is not None and len(rdv) == 1:
+        for n in walk_no_nested(pn.node):
+            if isinstance(n, ast.Assign) and isinstance(n.value, ast.Subscript) and isinstance(n.value.slice, ast.Slice):
+                b = amatch('E_buf[V_o + V_rd:V_o + V_rd + (E_buf[V_o] - V_rd)]', pl.expanded(n.value), {'V_o': cb, 'V_rd': rdv[0]})
+                ok_nh = ok_nh or b is not None
+    run.check(ok_nh, pn.qualname, 'next hop = bytes after the RD-sized prefix, RD size from Family.size of the attribute own family', pn.loc(), 'the next hop of a VPN family follows an 8-byte zero RD')
 
     # ------------------------------------------------------------------ R3 zero-length negative slice
     run.rule('C02.R3', 'no `x[:-n]` with a variable n that may be 0 in the AS_PATH/AS4_PATH merge (x[:-0] is empty, not x)', floor=1)
@@ -297,57 +319,70 @@ def check(model: Model, run: Run) -> None:
 
     # ------------------------------------------------------------------ R4 next hop attribution
     run.rule('C02.R4', 'next hop attribution: routes of the NLRI section get the NEXT_HOP attribute of the same UPDATE; MP_REACH routes get the next hop bytes of that attribute', floor=2)
-    nhdef = [n for n in walk_no_nested(pp.node) if isinstance(n, ast.Assign) and dotted(n.targets[0]) == 'nexthop']
-    ok = len(nhdef) == 1 and norm(nhdef[0].value).startswith('attributes.get(Attribute.CODE.NEXT_HOP')
-    rn = [c for c in walk_no_nested(pp.node) if isinstance(c, ast.Call) and isinstance(c.func, ast.Name) and c.func.id == 'RoutedNLRI']
-    srcs = set()
+    rn = [c for c in walk_no_nested(pp.node) if isinstance(c, ast.Call) and model.call_matches(mod, c, 'RoutedNLRI')]
+    ok = bool(rn)
     for c in rn:
-        if len(c.args) >= 2:
-            for x in ast.walk(c.args[1]):
-                if isinstance(x, ast.Name):
-                    srcs.add(x.id)
-    ok = ok and bool(rn) and srcs <= {'nexthop', 'packed', 'IPv4', 'IPv6', 'IP'} and all(dotted(c.args[0]) == 'nlri' for c in rn)
-    pk = [n for n in walk_no_nested(pp.node) if isinstance(n, ast.Assign) and dotted(n.targets[0]) == 'packed']
-    ok = ok and all(norm(p.value) == 'nexthop._packed' for p in pk)
-    run.check(ok, pp.qualname, 'RoutedNLRI(nlri, <NEXT_HOP attribute of this UPDATE>)', pp.loc(rn[0]) if rn else pp.loc(), 'IPv4 NLRI-section routes take the NEXT_HOP attribute')
+        if len(c.args) < 2:
+            ok = False
+            continue
+        l0, l1 = lf.of(c.args[0]), lf.of(c.args[1])
+        # the route comes from the NLRI section, the next hop from the NEXT_HOP attribute (or is the NoNextHop constant)
+        ok = ok and routes(l0) == {'A.sec'} and not routes(l1) and ('NH' in l1 or (dotted(c.args[1]) or '').endswith('NoNextHop'))
+    run.check(ok, pp.qualname, 'RoutedNLRI(<route of the NLRI section>, <NEXT_HOP attribute of this UPDATE>)', pp.loc(rn[0]) if rn else pp.loc(), 'IPv4 NLRI-section routes take the NEXT_HOP attribute')
     ir = model.func(MPR + '.iter_routed')
     run.analysed(ir)
-    it = norm(ir.node)
-    ok = 'nexthop_bytes, nlri_iter = self._parse_nexthop_and_nlris()' in it and 'NextHop.unpack_attribute(nexthop_bytes' in it and 'RoutedNLRI(nlri, nexthop)' in it
+
+    def iseed_unpack(value: ast.AST, i: int) -> tuple[str, ...]:
+        if isinstance(value, ast.Call) and model.call_matches(ir.module, value, 'MPRNLRI._parse_nexthop_and_nlris'):
+            return (('NH',), ('N',))[i] if i < 2 else ()
+        return ()
+
+    irf = LabelFlow(ir.node, lambda e: (), iseed_unpack)
+    rn2 = [c for c in walk_no_nested(ir.node) if isinstance(c, ast.Call) and model.call_matches(ir.module, c, 'RoutedNLRI')]
+    ok = bool(rn2) and all(len(c.args) >= 2 and irf.of(c.args[0]) == {'N'} and irf.of(c.args[1]) <= {'NH'} for c in rn2)
+    nhu = model.calls_to(ir.module, ir.node, 'NextHop.unpack_attribute')
+    ok = ok and bool(nhu) and all(c.args and irf.of(c.args[0]) == {'NH'} for c in nhu)
     run.check(ok, ir.qualname, 'RoutedNLRI(nlri, next hop parsed from this MP_REACH)', ir.loc(), 'MP_REACH routes take the next hop of their own attribute')
 
     # the next hop reported for MP_REACH is the FIRST address of the field (RFC 2545: global, then link-local)
-    nb = [n for n in walk_no_nested(pn.node) if isinstance(n, ast.Assign) and dotted(n.targets[0]) == 'nexthop_bytes']
+    prets = [r for r in walk_no_nested(pn.node) if isinstance(r, ast.Return) and isinstance(r.value, ast.Tuple) and len(r.value.elts) == 2]
     ok_first = False
-    why = 'definition of nexthop_bytes not understood'
-    if len(nb) == 1:
-        v = nb[0].value
+    why = 'definition of the returned next hop not understood'
+    nb_node: ast.AST | None = prets[-1] if prets else None
+    if prets:
+        v = pl.resolve(prets[-1].value.elts[0])
         if isinstance(v, ast.IfExp):
             v = v.body
         if isinstance(v, ast.Subscript) and not isinstance(v.slice, ast.Slice):
             idx = folder.fold(v.slice, pn.module)
-            base = dotted(v.value) or ''
-            chunks = [n for n in walk_no_nested(pn.node) if isinstance(n, ast.Assign) and dotted(n.targets[0]) == base]
-            ok_first = idx == 0 and len(chunks) == 1 and 'range(0, len(nhs), 16)' in norm(chunks[0].value) and 'nhs[pos:pos + 16]' in norm(chunks[0].value)
-            why = 'index %s of %s' % (idx, base)
+            chunks = pl.resolve(v.value)
+            ok_first = idx == 0 and amatch('[V_b[V_p:V_p + 16] for V_p in range(0, len(V_b), 16)]', chunks) is not None
+            why = 'element %s of the 16-byte chunks' % idx
         elif isinstance(v, ast.Subscript) and isinstance(v.slice, ast.Slice):
             lo = folder.fold(v.slice.lower, pn.module) if v.slice.lower is not None else 0
-            ok_first = lo == 0 and dotted(v.value) == 'nhs'
+            ok_first = lo == 0
             why = 'slice %s' % norm(v)
-    run.check(ok_first, pn.qualname, 'next hop = first address of the next-hop field (%s)' % why, pn.loc(nb[0]) if nb else pn.loc(), 'with a 32-byte IPv6 next hop (global + link-local, RFC 2545) the route next hop is the global address, i.e. the first 16 bytes')
+    run.check(ok_first, pn.qualname, 'next hop = first address of the next-hop field (%s)' % why, pn.loc(nb_node) if nb_node is not None else pn.loc(), 'with a 32-byte IPv6 next hop (global + link-local, RFC 2545) the route next hop is the global address, i.e. the first 16 bytes')
 
     # ------------------------------------------------------------------ R6 decode uses the RECEIVE direction of ADD-PATH
     run.rule('C02.R6', 'decoding uses the receive direction of ADD-PATH: the flag handed to the NLRI decoders comes from Negotiated.required(afi, safi) (IN -> receive); no decode-side function reads RequirePath.send', floor=3)
     for qn in (MPR + '.unpack_attribute', MPU + '.unpack_attribute', UC + '._parse_payload'):
         f = model.func(qn)
         run.analysed(f)
-        ad = [n for n in walk_no_nested(f.node) if isinstance(n, ast.Assign) and dotted(n.targets[0]) == 'addpath']
-        ok = len(ad) == 1 and isinstance(ad[0].value, ast.Call) and model.call_matches(f.module, ad[0].value, 'Negotiated.required')
+        fl = Loc(model, f)
+        names = fl.from_call('Negotiated.required')
+        ad = [v for nm in names for v in fl.values(nm)]
+        ok = len(names) == 1 and len(ad) == 1
         sends = model.calls_to(f.module, f.node, 'RequirePath.send')
-        run.check(ok and not sends, qn, 'addpath = %s' % (norm(ad[0].value) if ad else None), f.loc(ad[0]) if ad else f.loc(), 'a path identifier is present in received NLRIs iff ADD-PATH RECEIVE was negotiated for the family; the send direction is for encoding only')
+        run.check(ok and not sends, qn, 'ADD-PATH flag = %s' % (norm(ad[0]) if ad else None), f.loc(ad[0]) if ad else f.loc(), 'a path identifier is present in received NLRIs iff ADD-PATH RECEIVE was negotiated for the family; the send direction is for encoding only')
+        if ok:
+            # ... and it is what the decoders / the lazy attribute get
+            users = [c for c in walk_no_nested(f.node) if isinstance(c, ast.Call) and (model.call_matches(f.module, c, 'NLRI.unpack_nlri') or (qn != UC + '._parse_payload' and isinstance(c.func, ast.Name) and c.func.id == 'cls'))]
+            run.check(bool(users) and all(any(isinstance(a, ast.Name) and a.id == names[0] for a in c.args) for c in users), qn, 'the flag is handed to %d decoder / constructor call(s)' % len(users), f.loc(users[0]) if users else f.loc(), 'the decoders must be told whether a path identifier precedes each NLRI')
         if qn != UC + '._parse_payload' and ad:
-            args = [norm(a) for a in ad[0].value.args]
-            run.check(args == ['afi', 'safi'], qn, 'for the family of the attribute %s' % args, f.loc(ad[0]), 'ADD-PATH is negotiated per family')
+            args = [fl.resolve(a) for a in ad[0].args] if isinstance(ad[0], ast.Call) else []
+            fam = len(args) == 2 and isinstance(args[0], ast.Call) and model.call_matches(f.module, args[0], 'AFI.from_int') and isinstance(args[1], ast.Call) and model.call_matches(f.module, args[1], 'SAFI.from_int')
+            run.check(fam, qn, 'for the family of the attribute (%s)' % ', '.join(norm(a) for a in args), f.loc(ad[0]), 'ADD-PATH is negotiated per family')
     req = model.func('exabgp.bgp.message.open.capability.negotiated.Negotiated.required')
     okr = False
     for n in walk_no_nested(req.node):
